@@ -105,6 +105,19 @@ func tbParallel(env *TBEnv, c *Ctx, specs []*TBSpec, par int) []*TBResult {
 		}(i)
 	}
 	wg.Wait()
+	// a run that hit its wall-clock deadline is repeated ALONE, with three times the deadline, before
+	// anybody judges it (on a loaded machine a healthy mrp can simply be slow)
+	for i := range specs {
+		if res[i] != nil && res[i].Final == "timeout" {
+			c.Res.hist("tierB_rerun_alone_timeout")
+			s := *specs[i]
+			if s.Timeout == 0 {
+				s.Timeout = 90 * time.Second
+			}
+			s.Timeout *= 3
+			res[i] = env.Run(&s, nil)
+		}
+	}
 	return res
 }
 
